@@ -155,6 +155,7 @@ struct Cnt {
     accepted: AtomicU64,
     rejected: AtomicU64,
     compiled_fns: AtomicU64,
+    refused_no_input_bits: AtomicU64,
 }
 
 fn check_source(src: &str, site: &str, input: &str, fns: &[(&str, Vec<usize>, usize)], must_accept: bool, cnt: &Cnt, coll: &Collector) {
@@ -185,7 +186,19 @@ fn check_source(src: &str, site: &str, input: &str, fns: &[(&str, Vec<usize>, us
                 continue;
             }
             Ok(Err(e)) => {
-                coll.push(Violation::new("C05", site, "accepted-but-compile-error", input, case.clone(), format!("fn {fname}: {e:?}")));
+                // "a program that cannot be compiled this way is rejected with an error instead":
+                // the only legitimate such refusal is a function without a single input bit
+                let no_bits = parties.iter().sum::<usize>() == 0;
+                let is_no_input_bits = e.len() == 1 && matches!(e[0], garble_lang::compile::CompilerError::NoInputBits(_));
+                let text = src.to_string();
+                let pretty = catch(move || garble_lang::Error::from(garble_lang::CompileTimeError::from(e.clone())).prettify(&text));
+                if !(no_bits && is_no_input_bits) {
+                    coll.push(Violation::new("C05", site, "accepted-but-compile-error", input, case.clone(), format!("fn {fname}: {pretty:?}")));
+                } else if let Err(p) = pretty {
+                    coll.push(Violation::new("C05", site, "prettify-rust-panic", input, case.clone(), p));
+                } else {
+                    cnt.refused_no_input_bits.fetch_add(1, Ordering::Relaxed);
+                }
                 continue;
             }
             Ok(Ok(c)) => c,
@@ -232,7 +245,7 @@ pub fn run(tier: Tier) -> i32 {
     let start = Instant::now();
     let budget = Budget::new(tier.pick(200.0, 3300.0));
     let coll = Collector::new();
-    let cnt = Cnt { programs: AtomicU64::new(0), accepted: AtomicU64::new(0), rejected: AtomicU64::new(0), compiled_fns: AtomicU64::new(0) };
+    let cnt = Cnt { programs: AtomicU64::new(0), accepted: AtomicU64::new(0), rejected: AtomicU64::new(0), compiled_fns: AtomicU64::new(0), refused_no_input_bits: AtomicU64::new(0) };
     // (b) family I
     let tys = [IntTy::U8, IntTy::U16, IntTy::U32, IntTy::U64, IntTy::Usize, IntTy::I8, IntTy::I16, IntTy::I32, IntTy::I64];
     struct Job {
@@ -344,6 +357,7 @@ pub fn run(tier: Tier) -> i32 {
             "evaluations": cnt.programs.load(Ordering::Relaxed) + fr.counters.get("programs"),
             "distinct_nontrivial": cnt.accepted.load(Ordering::Relaxed) + fr.counters.get("nontrivial_programs"),
             "rule": "family I: 50 templates, one per path by which an integer literal meets its type (operand either side, nested, through let / let mut / annotated let / destructuring / arrays / repeat / tuples / struct and enum fields / fn arguments / return / if branches / match patterns and arms / block tail / ranges / indices / shift amounts / casts / assignments / negative and out-of-range values), each literal position suffixed or unsuffixed in EVERY subset, for all 9 integer types; plus zero-sized and single-array-parameter programs; an accepted program must compile every pub fn without panic to a circuit that validates, has one party per parameter (per element for a single array parameter) of size(type) bits and 161 + size(return type) outputs that decode; fully suffixed in-range instances must be accepted; (a) every program of families E, S, P, D must be accepted and well-shaped; distinct_nontrivial = accepted family-I programs + family programs with >=2 distinct outputs",
+            "functions_refused_for_having_no_input_bit": cnt.refused_no_input_bits.load(Ordering::Relaxed),
             "samples": [
                 {"site": jobs[3 * 9].site, "source": jobs[3 * 9].src},
                 {"site": jobs[n_i / 2].site, "source": jobs[n_i / 2].src},
